@@ -143,7 +143,7 @@ Proof.
 Qed.
 
 (* head character of a numeral *)
-Definition numc (c : Z) : Prop := 48 <= c <= 57 \/ c = 45.
+Definition numc (c : Z) : Prop := 48 <= c <= 57 \/ c = 45 \/ c = 43.
 Definition numhead (t : list Z) : Prop := exists c r, t = c :: r /\ numc c.
 
 Lemma digits_head ds : digits ds -> exists c r, ds = c :: r /\ 48 <= c <= 57.
@@ -156,7 +156,7 @@ Lemma numeral_numhead t : numeral t -> numhead t.
 Proof.
   intros [ds H|ds H].
   - destruct (digits_head _ H) as (c & r & -> & Hc). exists c, r. split; [reflexivity|now left].
-  - exists 45, ds. split; [reflexivity|now right].
+  - exists 45, ds. split; [reflexivity|right; left; reflexivity].
 Qed.
 
 (* ------------------------------------------------------------------ rejections by the head character *)
